@@ -199,8 +199,12 @@ func c19OptionField(r *Rand, id int, short rune) c19Field {
 	})
 	opt(30, func() { add("env", fmt.Sprintf("ENV%d", id)) })
 	opt(20, func() { add("env-delim", []string{",", ";", "::", " "}[r.Intn(4)]) })
-	opt(30, func() { add("required", []string{"true", "yes", "1", "false", "no", "0", "", "x", "False", "NO", "TRUE", "00"}[r.Intn(12)]) })
-	opt(30, func() { add("optional", []string{"true", "yes", "false", "no", "0", "", "anything", "FALSE", "No"}[r.Intn(9)]) })
+	opt(30, func() {
+		add("required", []string{"true", "yes", "1", "false", "no", "0", "", "x", "False", "NO", "TRUE", "00"}[r.Intn(12)])
+	})
+	opt(30, func() {
+		add("optional", []string{"true", "yes", "false", "no", "0", "", "anything", "FALSE", "No"}[r.Intn(9)])
+	})
 	opt(30, func() {
 		for i := r.Range(1, 2); i > 0; i-- {
 			add("optional-value", c19Text(r, id))
@@ -211,7 +215,9 @@ func c19OptionField(r *Rand, id int, short rune) c19Field {
 			add("choice", c19Text(r, id))
 		}
 	})
-	opt(30, func() { add("hidden", []string{"true", "yes", "false", "no", "0", "", "h", "False", "NO", "0.0"}[r.Intn(10)]) })
+	opt(30, func() {
+		add("hidden", []string{"true", "yes", "false", "no", "0", "", "h", "False", "NO", "0.0"}[r.Intn(10)])
+	})
 	opt(30, func() { add("value-name", c19Text(r, id)) })
 	opt(30, func() { add("default-mask", c19Text(r, id)) })
 	// repeated single-valued keys: the last one counts
